@@ -12,8 +12,8 @@ operators to the right field and value.  R4 the grouping state is injected as
 grouping, only when none was given.  R5 partition and order arguments reach
 ``OVER(PARTITION BY .. ORDER BY ..)`` / ``over(.., order_by=..)`` unswapped; ``shift``
 maps the sign of its offset to LAG / LEAD.
-Not decided: the rank arithmetic of ``merge_desc_nulls_last``, the inverse
-permutation, any actual row order.
+R6 decides the rank arithmetic of ``merge_desc_nulls_last`` by a linear-interval analysis.
+Not decided: the inverse permutation, any actual row order.
 """
 
 from __future__ import annotations
@@ -46,6 +46,7 @@ def run(chk):
     chk.rule("R3", "flag mapping for descending / nulls_last on SQL and Polars, marker peeling in Order.from_col_expr")
     chk.rule("R4", "grouping state injected as partition_by for every non-element-wise function type")
     chk.rule("R5", "partition_by / order_by reach OVER() unswapped on both back ends; shift offset sign -> LAG / LEAD")
+    chk.rule("R6", "interval analysis: the rank-based emulation of descending / nulls_last orders keys correctly and its null sentinels dominate the key range for every row count")
 
     # ---- R1
     cache = repo.mod("pipe.cache")
@@ -115,6 +116,26 @@ def run(chk):
 
     # ---- R4
     _grouping_injection(chk, repo)
+
+    # ---- R6 interval analysis of the rank-based emulation
+    from .. import intervals
+
+    mf = pol.func("merge_desc_nulls_last")
+    try:
+        res = intervals.analyse_merge(mf)
+    except intervals.Undecided as u:
+        chk.note(f"R6: interval analysis of merge_desc_nulls_last undecided ({u}); no verdict")
+        res = []
+    for desc, nl, key, problems in res:
+        shape = "raw column" if key.raw else f"range [{key.lo}, {key.hi}], sentinel {key.sentinel}"
+        chk.ob("R6", pol, mf, f"merge_desc_nulls_last(descending={desc}, nulls_last={nl}): {shape}", not problems,
+               f"window ordering emulation for descending={desc}, nulls_last={nl}: " + "; ".join(problems) + " - window functions with "
+               "partition_by / rank see the rows of a partition in another order than SQL")  # fmt: skip
+    # the emulation is applied wherever over(order_by=) is used, and to rank / dense_rank
+    pf2 = pol.func("compile_col_expr")
+    uses = [c for c in calls_in(pf2) if dotted(c.func) == "merge_desc_nulls_last"]
+    chk.ob("R6", pol, pf2, "merge_desc_nulls_last feeds over(order_by=) and the rank struct", len(uses) >= 2 and all([norm(a) for a in c.args] == ["order_by", "descending", "nulls_last"] for c in uses),
+           "the descending / nulls_last emulation is not applied (or with permuted arguments) where the ordering reaches `over` / rank")  # fmt: skip
 
     # ---- R5
     _over_wiring(chk, repo, m)
